@@ -74,6 +74,13 @@ theorem inv3c_dSend (s s' : State) (i : Nat) (ha : Inv3a s) (hI : Inv3c s) (h : 
   simp only [step] at h
   (repeat' split at h) <;> close_case3
 
+theorem inv3c_uFail (s s' : State) (i : Nat) (ha : Inv3a s) (hI : Inv3c s) (h : step cfg s (.uFail i) = some s') : Inv3c s' := by
+  have g5 := ha.g5
+  clear ha
+  obtain ⟨g10⟩ := hI
+  simp only [step] at h
+  (repeat' split at h) <;> close_case3
+
 set_option maxHeartbeats 1600000 in
 theorem inv3c_cleanup (s s' : State) (i : Nat) (ha : Inv3a s) (hI : Inv3c s) (h : step cfg s (.cleanup i) = some s') : Inv3c s' := by
   have g5 := ha.g5
@@ -139,6 +146,7 @@ theorem inv3c_step (s s' : State) (e : Ev) (ha : Inv3a s) (hI : Inv3c s) (h : st
   | dTimeout i => exact inv3c_dTimeout cfg s s' i ha hI h
   | dPacket i => exact inv3c_dPacket cfg s s' i ha hI h
   | dSend i => exact inv3c_dSend cfg s s' i ha hI h
+  | uFail i => exact inv3c_uFail cfg s s' i ha hI h
   | cleanup i => exact inv3c_cleanup cfg s s' i ha hI h
   | uRecv i k => exact inv3c_uRecv cfg s s' i k ha hI h
   | uStep i => exact inv3c_uStep cfg s s' i ha hI h
